@@ -444,7 +444,11 @@ func variants() []*Variant {
 		[]Slot{sEnum("Hours", 1, Val{Label: "off", S: "0", U: 0},
 			Val{Label: "8:00-17:00", S: "8:00-17:00", U: uint64(workingHours(8, 0, 17, 0))},
 			Val{Label: "0:00-23:59", S: "0:00-23:59", U: uint64(workingHours(0, 0, 23, 59))},
-			Val{Label: "9:30-9:31", S: "9:30-9:31", U: uint64(workingHours(9, 30, 9, 31))})},
+			Val{Label: "9:30-9:31", S: "9:30-9:31", U: uint64(workingHours(9, 30, 9, 31))},
+			// every bit of every packed field: minutes 32..59 use the sixth bit, hours 16..23 the fifth
+			Val{Label: "8:45-17:32", S: "8:45-17:32", U: uint64(workingHours(8, 45, 17, 32))},
+			Val{Label: "16:59-23:08", S: "16:59-23:08", U: uint64(workingHours(16, 59, 23, 8))},
+			Val{Label: "7:09-15:07", S: "7:09-15:07", U: uint64(workingHours(7, 9, 15, 7))})},
 		first, func(v []Val) []Arg { return []Arg{aI32("Hours", uint32(v[0].U))} })
 
 	add(&Variant{Name: "screenshot", Cmd: 2510, Handler: "CommandScreenshot", Info: none, Want: func(v []Val) []Arg { return nil }})
